@@ -77,7 +77,29 @@ class LayerSpec(object):
         return {'epsg': self.epsg, 'grid': self.grid_conf, 'coverage': self.coverage, 'sqrt2': self.sqrt2, 'kind': self.kind}
 
 
+def gen_global_geodetic_layer(rng, i):
+    """global-geodetic profile (bbox -180,-90,180,90 in EPSG:4326) with a custom dyadic resolution list: the first level is
+    1x1, 2x1, 2x2, 4x2, ... tiles; the profile hides that first level whatever its size"""
+    tw, th = rng.choice([(4, 4), (4, 2), (2, 2), (8, 4), (8, 8), (16, 8)])
+    ladder = [Fraction(90) / 2 ** k for k in range(7) if Fraction(90) / 2 ** k * 8 % 1 == 0]
+    ladder = [r for r in ladder if 360 / r >= tw / 2]
+    start = rng.randrange(0, max(1, len(ladder) - 2))
+    n = rng.randrange(2, 5)
+    if rng.random() < 0.6:
+        res = ladder[start:start + n]
+    else:
+        res = sorted(set(rng.sample(ladder, min(len(ladder), n))), reverse=True)
+    if len(res) < 2:
+        res = ladder[:2]
+    conf = {'srs': 'EPSG:4326', 'bbox': [-180.0, -90.0, 180.0, 90.0], 'res': [float(r) for r in res], 'tile_size': [tw, th],
+            'origin': rng.choice(['ll', 'ul', 'sw', 'nw']), 'stretch_factor': rng.choice([1.125, 1.25, 1.5]),
+            'max_shrink_factor': rng.choice([4.0, 2.0])}
+    return LayerSpec('x%d' % i, 4326, conf, 'exact', None)
+
+
 def gen_exact_layer(rng, i):
+    if rng.random() < 0.2:
+        return gen_global_geodetic_layer(rng, i)
     epsg = rng.choice([3857, 3857, 25832, 31467, 4326, 4326])
     ul = rng.choice(['ll', 'ul', 'sw', 'nw', 'ul'])
     if epsg == 4326:
@@ -169,6 +191,19 @@ def real_layers():
                 'origin': 'nw'})
     add(4326, {'srs': 'EPSG:4326', 'bbox': [5.0, 45.0, 15.5, 55.25], 'res_factor': 1.5, 'num_levels': 6, 'origin': 'ul'})
     add(4326, {'srs': 'EPSG:4326', 'bbox': [-180, -90, 180, 90], 'tile_size': [360, 180], 'num_levels': 5}, kind='exact')
+    # global profiles (decided by SRS + bbox only) whose first level is not the single world tile: the profile hides that
+    # level in the TileMap and requests are shifted by one level all the same
+    add(4326, {'base': 'GLOBAL_GEODETIC', 'min_res': 0.703125, 'num_levels': 4}, kind='exact')                      # 2x1
+    add(4326, {'base': 'GLOBAL_GEODETIC', 'min_res': 0.3515625, 'num_levels': 4, 'origin': 'ul'}, kind='exact')     # 4x2
+    add(4326, {'base': 'GLOBAL_GEODETIC', 'tile_size': [256, 128], 'res': [0.703125, 0.3515625, 0.17578125]}, kind='exact')  # 2x2
+    add(4326, {'base': 'GLOBAL_GEODETIC', 'res': [0.5, 0.25, 0.125], 'origin': 'ul'}, kind='exact')                 # 3x2, unaligned
+    add(900913, {'base': 'GLOBAL_MERCATOR', 'min_res': 78271.51696402048, 'num_levels': 4})                        # 2x2
+    add(900913, {'base': 'GLOBAL_MERCATOR', 'min_res': 39135.75848201024, 'num_levels': 3, 'origin': 'nw'})       # 4x4
+    add(3857, {'base': 'GLOBAL_WEBMERCATOR', 'res': [100000, 50000, 20000, 10000]})                                # custom list, 2x2
+    add(4326, {'base': 'GLOBAL_GEODETIC', 'res_factor': 'sqrt2', 'min_res': 0.703125, 'num_levels': 6}, sqrt2=True)              # 2x1
+    add(4326, {'base': 'GLOBAL_GEODETIC', 'res_factor': 'sqrt2', 'min_res': 0.3515625, 'num_levels': 5, 'origin': 'ul'}, sqrt2=True)  # 4x2
+    add(900913, {'base': 'GLOBAL_MERCATOR', 'res_factor': 'sqrt2', 'min_res': 78271.51696402048, 'num_levels': 6, 'origin': 'nw'},
+        sqrt2=True)                                                                                                  # 2x2
     return out
 
 
@@ -921,7 +956,9 @@ def run(ctx):
             batches.append((exact[k:k + per], rng.choice([None, None, 'nw', 'sw'])))
         real = real_layers()
         batches.append((real[:8], None))
-        batches.append((real[8:], 'nw'))
+        batches.append((real[8:15], 'nw'))
+        batches.append((real[15:20], 'sw'))
+        batches.append((real[20:], None))
         idx = 0
         for specs, origin in batches:
             run_app(R, specs, origin, idx)
